@@ -66,6 +66,7 @@ type ScenarioResult struct {
 	ActionErrors  []string
 	Bugs          int
 	IdentityPulls int
+	PairChecks    int // same operations under different heads on two replicas: convergence compared mid-schedule
 }
 
 type engine struct {
@@ -576,6 +577,7 @@ func RunScenario(sc Scenario) (res *ScenarioResult) {
 			}
 		}
 		e.orderMonitor(r)
+		e.pairwiseConvergence(fmt.Sprintf("after step %d (%s on %s)", i, a.Op, r.Name))
 	}
 	res.Bugs = len(e.bugs)
 	if !sc.SkipSync {
@@ -665,6 +667,50 @@ func (e *engine) syncAndCompare() {
 	}
 }
 
+// pairwiseConvergence applies the C01 oracle at every point of a schedule: whenever two replicas hold exactly
+// the same operations of a bug (whatever their heads and merge commits are), both must show them in the
+// same order and compile the same snapshot.
+func (e *engine) pairwiseConvergence(when string) {
+	type view struct {
+		set  string
+		head string
+	}
+	views := make([]map[entity.Id]view, len(e.w.Replicas))
+	for i, r := range e.w.Replicas {
+		views[i] = map[entity.Id]view{}
+		ids, _ := r.BugIds()
+		for _, id := range ids {
+			h, ok, err := gitraw.ReadRef(r.Repo, "refs/bugs/"+id.String())
+			if !ok || err != nil {
+				continue
+			}
+			views[i][id] = view{set: strings.Join(world.SortedKeys(h.OpIds()), ","), head: h.Head}
+		}
+	}
+	for i := 0; i < len(views); i++ {
+		for j := i + 1; j < len(views); j++ {
+			for id, vi := range views[i] {
+				vj, ok := views[j][id]
+				if !ok || vi.set != vj.set || vi.head == vj.head {
+					continue // different operations, or the very same history (compared at quiescence anyway)
+				}
+				e.res.PairChecks++
+				bi, erri := world.ReadBug(e.w.Replicas[i].Repo, id)
+				bj, errj := world.ReadBug(e.w.Replicas[j].Repo, id)
+				switch {
+				case (erri == nil) != (errj == nil):
+					e.find("converge", "readable-on-one-replica-only", fmt.Sprintf("%s: bug %s holds the same operations on r%d and r%d (different heads) but reads on one only: %v / %v", when, id.Human(), i, j, erri, errj))
+				case erri != nil:
+				case !reflect.DeepEqual(world.OpIds(bi), world.OpIds(bj)):
+					e.find("converge", "operation-order-differs", fmt.Sprintf("%s: bug %s holds the same operations on r%d and r%d under different heads, but in different orders: %v vs %v", when, id.Human(), i, j, shortAll(world.OpIds(bi)), shortAll(world.OpIds(bj))))
+				case world.JSON(world.RenderSnapshot(bi.Compile())) != world.JSON(world.RenderSnapshot(bj.Compile())):
+					e.find("converge", "snapshot-differs", fmt.Sprintf("%s: bug %s: same operations, different snapshot on r%d and r%d", when, id.Human(), i, j))
+				}
+			}
+		}
+	}
+}
+
 func (e *engine) shape() string {
 	bl := append([]string{}, e.res.BranchLens...)
 	sort.Strings(bl)
@@ -734,6 +780,20 @@ func TargetedScenario(a, b int, peers bool, authors int, variant int, rng *rand.
 		acts = append(acts, Action{Op: "edit", R: 2, Bug: 0, Specs: randSpecs(rng, authors, 2)},
 			Action{Op: "push", R: 0}, Action{Op: "pull", R: 1}, Action{Op: "push", R: 1}, Action{Op: "pull", R: 2}, Action{Op: "push", R: 2},
 			Action{Op: "edit", R: 0, Bug: 0, Specs: randSpecs(rng, authors, 2)}, Action{Op: "pull", R: 0}, Action{Op: "push", R: 0})
+	case 4: // merge without pushing, the remote advances on top of what was merged, pull again
+		acts = append(acts, Action{Op: "push", R: 1}, Action{Op: "pull", R: 0},
+			Action{Op: "edit", R: 1, Bug: 0, Specs: randSpecs(rng, authors, 2)}, Action{Op: "push", R: 1},
+			Action{Op: "pull", R: 0},
+			Action{Op: "edit", R: 1, Bug: 0, Specs: randSpecs(rng, authors, 2)}, Action{Op: "push", R: 1},
+			Action{Op: "edit", R: 0, Bug: 0, Specs: randSpecs(rng, authors, 1)}, Action{Op: "pull", R: 0})
+	case 5: // both sides merge the same pair of heads over peer remotes and stay on different merge commits
+		if peers {
+			// both fetch before either merges: each creates its own merge commit over the same two heads
+			acts = append(acts, Action{Op: "fetch", R: 0, Remote: "r1"}, Action{Op: "fetch", R: 1, Remote: "r0"},
+				Action{Op: "merge", R: 0, Remote: "r1"}, Action{Op: "merge", R: 1, Remote: "r0"})
+		} else {
+			acts = append(acts, Action{Op: "push", R: 0}, Action{Op: "pull", R: 1})
+		}
 	case 3: // repeated cross merges
 		acts = append(acts, Action{Op: "push", R: 0}, Action{Op: "pull", R: 1}, Action{Op: "push", R: 1})
 		for k := 0; k < 2; k++ {
